@@ -240,6 +240,8 @@ type vcRun struct {
 	nextTag int
 	nextDef int
 	lastSt  *vcState
+	mergeIn string // last file of the index list when the live merge job was launched (certainly one of its inputs)
+	mergeOn bool
 	jobTag  string // tag the live tagging job works on ("" none, "?" not identifiable: several tags were uncertain at launch)
 	tagLive bool
 	logs    *vcLogBuf
@@ -589,6 +591,13 @@ func (r *vcRun) observe(act []interface{}) *vcStep {
 			}
 		}
 		r.tagLive = st.Tag
+		completedMerge := len(act) == 2 && act[0] == "complete" && act[1] == "merge"
+		if !st.Merge {
+			r.mergeIn = ""
+		} else if (!r.mergeOn || completedMerge) && len(st.Idx) > 0 {
+			r.mergeIn = st.Idx[len(st.Idx)-1]
+		}
+		r.mergeOn = st.Merge
 	}
 	return step
 }
@@ -776,6 +785,40 @@ func (r *vcRun) apply(op []json.RawMessage) []interface{} {
 			r.waitConverter(true)
 		}
 		return []interface{}{vcArgStr(op, 0)}
+	case "failmerge":
+		// The parked merge job runs its body on a damaged input: one of its input files is truncated on disk (as a failing
+		// disk would do), the job is released from merge.start, index.Merge fails, the job parks at merge.done, and the file
+		// gets its bytes back before anything else reads it.
+		parked := vcCtl.snapshot()
+		if parked["merge"] != "start" || r.mergeIn == "" {
+			return nil
+		}
+		fn := filepath.Join(r.idxDir, r.mergeIn)
+		orig, err := os.ReadFile(fn)
+		if err != nil {
+			panic(err)
+		}
+		cut := int64(230)
+		if int64(len(orig)) <= cut {
+			cut = int64(len(orig) / 2)
+		}
+		if err := os.Truncate(fn, cut); err != nil {
+			panic(err)
+		}
+		vcCtl.release("merge")
+		deadline := time.Now().Add(10 * time.Second)
+		for vcCtl.snapshot()["merge"] != "done" && time.Now().Before(deadline) {
+			time.Sleep(time.Millisecond)
+		}
+		f, err := os.OpenFile(fn, os.O_WRONLY, 0) // same inode: the Reader keeps its descriptor
+		if err != nil {
+			panic(err)
+		}
+		if _, err := f.WriteAt(orig, 0); err != nil {
+			panic(err)
+		}
+		f.Close()
+		return []interface{}{"failmerge"}
 	case "step":
 		parked := vcCtl.snapshot()
 		ks := []string{}
